@@ -31,6 +31,7 @@ def metricOf : String → Option (Nat × (Pt → Pt → Int))
   | "abs1" => some (1, fun a b => iabs (a.1 - b.1))
   | "l1" => some (2, fun a b => iabs (a.1 - b.1) + iabs (a.2 - b.2))
   | "linf" => some (2, fun a b => max (iabs (a.1 - b.1)) (iabs (a.2 - b.2)))
+  | "abs3" => some (1, fun a b => (iabs (a.1 - b.1) + 2) / 3)
   | "table6" => some (1, fun a b => (table6.getD a.1.toNat #[]).getD b.1.toNat 0)
   | _ => none
 
@@ -225,6 +226,17 @@ def gnatInvOk (st : St) (g : Gnat Pt Int) : Bool :=
   | none => true
   | some t => t.inv st.dist g.removed
 
+/-- `setdist <metric>`: the metrics a structure may be switched to (same dimension, not the table). -/
+def newDist? (st : St) (m : String) : Option (Pt → Pt → Int) :=
+  if st.table then none
+  else
+    match metricOf m with
+    | some (dim, f) => if dim = st.dim && m != "table6" then some f else none
+    | none => none
+
+/-- `reportsSortedResults()`: `true` in all four shipped structures. -/
+def reportsSorted (_ : Kind) : Bool := true
+
 def stepLinear (st : St) (ts : List String) : St × String :=
   let fin (d : List Pt) (res : String) : St × String :=
     ({ st with lin := d }, res ++ " | sz=" ++ toString d.length ++ " " ++ listStr st d)
@@ -246,6 +258,11 @@ def stepLinear (st : St) (ts : List String) : St × String :=
     | some (p, []) => fin (linStep d (.remove p)) (if (removeLast p d).isSome then "true" else "false")
     | _ => (st, "bad-op")
   | ["clear"] => fin [] "ok"
+  | ["sorted"] => fin d (if reportsSorted st.kind then "1" else "0")
+  | ["setdist", m] =>
+    match newDist? st m with
+    | some f => let r := fin d "ok"; ({ r.1 with dist := f }, r.2)
+    | none => (st, "bad-op")
   | ["size"] => fin d (toString d.length)
   | ["list"] =>
     let s := d.mergeSort (fun a b => !ptLt b a)
@@ -300,6 +317,11 @@ def stepSqrt (st : St) (ts : List String) : St × String :=
     | some (p, []) => fin (s.step (.remove p)) (if (removeLast p s.data).isSome then "true" else "false")
     | _ => (st, "bad-op")
   | ["clear"] => fin (s.step .clear) "ok"
+  | ["sorted"] => fin s (if reportsSorted st.kind then "1" else "0")
+  | ["setdist", m] =>
+    match newDist? st m with
+    | some f => let r := fin s "ok"; ({ r.1 with dist := f }, r.2)
+    | none => (st, "bad-op")
   | ["size"] => fin s (toString s.data.length)
   | ["list"] =>
     let l := s.data.mergeSort (fun a b => !ptLt b a)
@@ -400,6 +422,15 @@ def stepModelOp (st : St) (ts : List String) : St × String :=
           fin r.1 (if r.2 then "true" else "false")
         | _ => (st, "bad-op")
       | ["clear"] => fin (st.g.clear, us, true) "ok"
+      | ["setdist", m] =>
+        match newDist? st m with
+        | some f =>
+          let st' := { st with dist := f }
+          let r := st.g.setDistanceFunction (ctxOf st') us
+          ({ st' with g := r.1 },
+            "ok" ++ (if r.2.2 then "" else " model-not-ok") ++ (if r.2.1.isEmpty then "" else " draws-left") ++
+              " | " ++ dumpStr st' r.1)
+        | none => (st, "bad-op")
       | _ => (st, "bad-op")
 
 def stepGnat (st : St) (ts : List String) : St × String :=
@@ -416,6 +447,7 @@ def stepGnat (st : St) (ts : List String) : St × String :=
         "inv=" ++ (if gnatInvOk st g' then "ok" else "bad") ++ " size=" ++ toString g'.size ++
           " live=" ++ toString l.length ++ " " ++ listStr st (l.map (·.val)))
     | none => (st, "bad-dump")
+  | ["sorted"] => (st, if reportsSorted st.kind then "1" else "0")
   | "nst" :: rest =>
     match pt? st rest with
     | some (q, []) =>
